@@ -580,6 +580,30 @@ func (p *Prog) nonNegCounter(fi *FuncInfo, v *types.Var) bool {
 func (p *Prog) runningMax(fi *FuncInfo, node ast.Node, lhs *Term, rhs ast.Expr) (*Term, bool) {
 	fs := p.FactsOf(rootFuncInfo(fi)).AtNode(node)
 	t := p.Term(rhs)
+	// a running maximum over a loop covers every element only if the update is not restricted to some of them:
+	// inside the enclosing loop nothing but the comparison itself may govern it
+	if loop := enclosingLoop(p, node); loop != nil {
+		c := p.CFG(rootFuncInfo(fi))
+		if pt, ok := c.PointOf(node); ok {
+			cmp := map[string]bool{}
+			for _, x := range []*Term{t, fs.Resolve(t), p.ExpandHelpers(t), p.ExpandHelpers(fs.Resolve(t))} {
+				cmp[lt(lhs, x).Key()] = true
+				cmp[normTerm(mk(">", x, lhs)).Key()] = true
+			}
+			for _, ca := range c.DominatingCondsAt(pt) {
+				ln := lastNode(ca.B)
+				if ln == nil || !nodeWithin(p, ln, loop) || ln == ast.Node(loopCond(loop)) {
+					continue
+				}
+				for _, a := range Conjuncts(ca.T) {
+					if cmp[a.Key()] || cmp[p.ExpandHelpers(a).Key()] || cmp[fs.Resolve(a).Key()] {
+						continue
+					}
+					return nil, false
+				}
+			}
+		}
+	}
 	if t.Op == "max" && len(t.Args) == 2 {
 		for i := 0; i < 2; i++ {
 			if t.Args[i].Key() == lhs.Key() {
@@ -885,4 +909,48 @@ func (p *Prog) bodyHasLockOp(fi *FuncInfo) bool {
 		return true
 	})
 	return found
+}
+
+// loopCond: the condition expression of a for statement (nil for range loops and for {}).
+func loopCond(loop ast.Node) ast.Expr {
+	if fs, ok := loop.(*ast.ForStmt); ok {
+		return fs.Cond
+	}
+	return nil
+}
+
+// sliceStart: t denotes base[off:…] — directly (nested reslices add up) or through locals defined once as such a
+// view (body := buf[h:]; body[c:] is buf[h+c:]). Returns the root variable term and the offset in linear form.
+func (p *Prog) sliceStart(fi *FuncInfo, t *Term, depth int) (*Term, *Linear, bool) {
+	if depth > 4 || t == nil {
+		return nil, nil, false
+	}
+	switch t.Op {
+	case "slice":
+		base, off, ok := p.sliceStart(fi, t.Args[0], depth+1)
+		if !ok {
+			return nil, nil, false
+		}
+		l := newLinear()
+		l.addScaled(off, 1)
+		if t.Args[1] != nil {
+			l.addScaled(Lin(t.Args[1]), 1)
+		}
+		return base, l, true
+	case "var":
+		v, _ := t.Obj.(*types.Var)
+		if v != nil && !p.isParam(v) {
+			as := p.Assignments(rootFuncInfo(fi), v)
+			if len(as) == 1 && as[0].Rhs != nil {
+				if rt := p.Term(as[0].Rhs); rt.Op == "slice" {
+					if rt.Args[0].Op == "call" {
+						return t, newLinear(), true // buf := Get()[:n]: the root
+					}
+					return p.sliceStart(fi, rt, depth+1)
+				}
+			}
+		}
+		return t, newLinear(), true
+	}
+	return nil, nil, false
 }
